@@ -549,3 +549,7 @@ Definition wf_bool (x : food) : bool :=
   strs_eq (units x) [ku x; fu x; pu x] && shape_ok x &&
   (if mon x then ends_with EACH (ku x) && ends_with EACH (fu x) && ends_with EACH (pu x)
    else no_each3 x).
+
+(* a food record with given numbers and labels (the combined list agreeing with them) *)
+Definition raw (v : vals) (k f p : string) : food :=
+  {| fv := v; ku := k; fu := f; pu := p; units := [k; f; p] |}.
